@@ -115,9 +115,18 @@ func (s String) String() string {
 }
 
 func (s String) Format(f fmt.State, verb rune) {
-	if verb == 's' {
+	switch {
+	case verb == 's':
 		fu.WriteString(f, string(s.s))
-	} else {
+	case s.holes > 0:
+		// No string literal can spell a hole: print the char tuples in full instead.
+		fu.WriteString(f, "{")
+		for e, i := s.Enumerator(), 0; e.MoveNext(); i++ {
+			writeSep(f, i, ", ")
+			fu.FRepr(f, e.Current())
+		}
+		fu.WriteString(f, "}")
+	default:
 		reprString(s, f)
 	}
 }
